@@ -788,6 +788,8 @@ def _distribution(corr, req, obs):
 
 def correspond(ctx, corr, model_ok):
     rng = ctx.rng
+    corr.oracle_failures.extend(session_oracle())
+    corr.count('one connection, several requests (gate per request; non-ASCII route names)', 40)
     runner = Runner()
     progs = fixed_programs()
     sprog, snames = styles_program()
@@ -898,6 +900,9 @@ def _run_case(case):
 
 
 def search(ctx, budget_s):
+    so = session_oracle()
+    if so:
+        return so[:1]
     t0 = time.time()
     rng = ctx.rng
     counter = itertools.count(1000)
@@ -949,8 +954,94 @@ def shrink(fc):
 
 
 def replay(obj):
+    if obj['case'].get('session'):
+        return bool(session_oracle())
     case = _fix(obj['case']['case'])
     o, obs = _run_case(case)
     if o:
         print('oracle:', o)
     return bool(o)
+
+
+# ------------------------------------------------------------------------------------------------
+# one connection, several requests: the authentication gate decides per (route, credentials) every time; route names
+# that are not ASCII are dispatched exactly (built by the real helpers, handled by the real RoutingRequestHandler)
+
+def session_oracle():
+    import asyncio as _a
+    from rsocket.routing.request_router import RequestRouter
+    from rsocket.routing.routing_request_handler import RoutingRequestHandler
+    from rsocket.extensions.helpers import composite, route, authenticate_simple
+    from rsocket.payload import Payload
+    from rsocket.helpers import create_response
+    out = []
+    loop = _a.new_event_loop()
+    try:
+        ran = []
+        router = RequestRouter()
+        names = ['public.x', 'admin.y', 'aé', 'aéé', 'données', 'météo', 'événement']
+
+        def reg(name):
+            @router.response(name)
+            async def rr():
+                ran.append(('response', name))
+                return create_response(b'secret of ' + name.encode())
+
+            @router.fire_and_forget(name)
+            async def fnf():
+                ran.append(('fnf', name))
+
+            @router.stream(name)
+            async def st():
+                ran.append(('stream', name))
+                from rsocket.streams.empty_stream import EmptyStream
+                return EmptyStream()
+
+            @router.metadata_push(name)
+            async def push():
+                ran.append(('push', name))
+        for nm in names:
+            reg(nm)
+
+        async def verifier(route_name, authentication):
+            user = bytes(authentication.username)
+            if user == b'alice' and not route_name.startswith('admin.'):
+                return
+            if user == b'root':
+                return
+            raise PermissionError('%s may not call %s' % (user, route_name))
+        handler = RoutingRequestHandler(router, authentication_verifier=verifier)      # ONE connection
+
+        def call(meth, name, user):
+            md = bytes(composite(route(name), authenticate_simple(user, 'pw')))
+            p = Payload(b'data', md)
+            before = len(ran)
+            res = loop.run_until_complete(getattr(handler, meth)(p))
+            if isinstance(res, _a.Future):
+                try:
+                    loop.run_until_complete(_a.wait_for(_a.shield(res), 0.01))
+                except Exception:
+                    pass
+            return ran[before:]
+        meths = {'request_response': 'response', 'request_fire_and_forget': 'fnf', 'request_stream': 'stream',
+                 'on_metadata_push': 'push'}
+        for meth, tag in meths.items():
+            a = call(meth, 'public.x', 'alice')
+            if a != [(tag, 'public.x')]:
+                out.append({'what': 'session: an authorised request was not dispatched to its handler: %s %r' % (meth, a),
+                            'session': True})
+            b = call(meth, 'admin.y', 'alice')          # same credentials, a route the verifier rejects
+            if b:
+                out.append({'what': 'session: handler %r ran for a request the verifier rejects (same credentials were accepted '
+                                    'for another route earlier on this connection)' % (b,), 'session': True})
+            c = call(meth, 'admin.y', 'root')
+            if c != [(tag, 'admin.y')]:
+                out.append({'what': 'session: an authorised request was not dispatched: %s %r' % (meth, c), 'session': True})
+        for nm in names[2:]:
+            for meth, tag in meths.items():
+                d = call(meth, nm, 'root')
+                if d != [(tag, nm)]:
+                    out.append({'what': 'session: request for route %r reached %r' % (nm, d), 'session': True})
+    finally:
+        loop.close()
+    return out
